@@ -79,3 +79,49 @@ Example ex_upload_fsync_fails :
   /\ snd (machine_run (fail_at 3 ENOSPC) (unit_prog ex_lay (UUpload ex_cal (Safe 5) 9 [])) (start ex_fs)) = OExn EVal
   /\ nth 6 (c_tr (fst (ex_run (UUpload ex_cal (Safe 5) 9 [])))) (Mkdir [], false) = (FsyncD ex_cal, true).
 Proof. vm_compute. repeat split. Qed.
+
+(* ------------------------------------------------------------------ a directory fsync counts for the directory it REACHES *)
+(* The monitor works on paths: `FsyncD d` is the fsync of the directory that is linked at d WHEN THE CALL IS MADE (the
+   projection resolves the descriptor at the time of the call, not at the time it was opened).  A descriptor of a
+   directory that has been replaced or removed meanwhile names another path (below a temp directory) or none at all;
+   syncing it discharges nothing at the old path: *)
+Lemma mon_run_snoc : forall t st, mon_run (t ++ [st]) = dstep st (mon_run t).
+Proof. intros t st. unfold mon_run. rewrite fold_left_app. reflexivity. Qed.
+
+Lemma fsync_elsewhere_keeps : forall t q d, In (DE q) (m_dirty (mon_run t)) -> parent q <> d ->
+  In (DE q) (m_dirty (mon_run (t ++ [FsyncD d]))).
+Proof.
+  intros t q d Hin Hne. rewrite mon_run_snoc. cbn. apply filter_In. split; [exact Hin|].
+  apply negb_true_iff. apply path_eqb_neq. exact Hne.
+Qed.
+
+Lemma c12_dir_fsync_elsewhere : forall t q d, is_data q = true -> In (DE q) (m_dirty (mon_run t)) -> parent q <> d ->
+  ~ durable (t ++ [FsyncD d]).
+Proof.
+  intros t q d Hq Hin Hne [_ Hc]. specialize (Hc (DE q) (fsync_elsewhere_keeps t q d Hin Hne)). cbn in Hc. congruence.
+Qed.
+
+(* several such fsyncs do not help either *)
+Lemma c12_dir_fsyncs_elsewhere : forall ds t q, is_data q = true -> In (DE q) (m_dirty (mon_run t)) ->
+  (forall d, In d ds -> parent q <> d) -> ~ durable (t ++ map FsyncD ds).
+Proof.
+  induction ds as [|d ds IH]; intros t q Hq Hin Hall.
+  - cbn. rewrite app_nil_r. intros [_ Hc]. specialize (Hc (DE q) Hin). cbn in Hc. congruence.
+  - cbn. replace (t ++ FsyncD d :: map FsyncD ds) with ((t ++ [FsyncD d]) ++ map FsyncD ds) by (rewrite <- app_assoc; reflexivity).
+    apply (IH _ q Hq).
+    + apply fsync_elsewhere_keeps; [exact Hin | apply Hall; left; reflexivity].
+    + intros d' Hd'. apply Hall. right. exact Hd'.
+Qed.
+
+(* the collection ex_cal is replaced (staged under ex_u/Tmp 0, exchanged, old one removed); a later PUT of an item whose
+   directory fsync goes to the OLD directory (now gone: some name outside the visible tree) is not durable, the same PUT
+   with the fsync of the directory linked at ex_cal is *)
+Definition ex_replace_then_put (d : path) : list step :=
+  let tc := ex_u ++ [Tmp 0; Safe 0] in
+  [Mkdir (ex_u ++ [Tmp 0]); Mkdir tc; Create (tc ++ [Props]); Write (tc ++ [Props]) 7; FsyncF (tc ++ [Props]); FsyncD tc;
+   FsyncD (ex_u ++ [Tmp 0]); Exchange tc ex_cal; FsyncD ex_u; Rmtree (ex_u ++ [Tmp 0]);
+   Mkdir (ex_cal ++ [Tmp 1]); Create (ex_cal ++ [Tmp 1; Safe 5]); Write (ex_cal ++ [Tmp 1; Safe 5]) 9; FsyncF (ex_cal ++ [Tmp 1; Safe 5]);
+   Rename (ex_cal ++ [Tmp 1; Safe 5]) (ex_cal ++ [Safe 5]); Rmtree (ex_cal ++ [Tmp 1]); FsyncD d].
+Example bad_fsync_of_replaced_directory :
+  durableb (ex_replace_then_put (ex_u ++ [Tmp 0; Other 0])) = false /\ durableb (ex_replace_then_put ex_cal) = true.
+Proof. split; reflexivity. Qed.
